@@ -332,6 +332,15 @@ MUST_HAVE = ["test_read_format_gtar_sparse_1_13.tar", "test_read_format_gtar_spa
 def pattern_spec(names_sizes):
     return [[n, AE_IFREG, s, 1, 7 * i + 3, [], ""] for i, (n, s) in enumerate(names_sizes)]
 
+def half_random_spec(names_sizes):
+    import random
+    rr = random.Random(20261002)
+    out = []
+    for i, (n, sz) in enumerate(names_sizes):
+        body = bytes(rr.choice(b"0123456789abcdef") for _ in range(sz))
+        out.append([n, AE_IFREG, sz, 1, 0, [], "", body])
+    return out
+
 def writer_specs():
     """(name, format, filters, options, entries) for harness op 3"""
     plain = [["dir", AE_IFDIR, 0, 1, 0, [], ""], ["dir/a", AE_IFREG, 3000, 1, 1, [], ""], ["dir/empty", AE_IFREG, 0, 1, 2, [], ""],
@@ -356,6 +365,12 @@ def writer_specs():
              ("7zip-solid-big", "7zip", [], "", big), ("7zip-deflate-big", "7zip", [], "7zip:compression=deflate", big),
              ("7zip-bzip2-big", "7zip", [], "7zip:compression=bzip2", big), ("pax-gz-big", "pax", ["gzip"], "", big),
              ("zip-deflate-big", "zip", [], "zip:compression=deflate", big),
+             # zisofs-compressed bodies (several compressed blocks per file): the block decoder's state must not leak
+             # from one file into the next, whatever was done with the earlier file
+             ("iso-zisofs", "iso9660", [], "iso9660:zisofs=direct", pattern_spec([("z1", 50000), ("z2", 33000), ("z3", 50001), ("z4", 40)])),
+             # ... and with bodies that compress only about 2:1, so that one compressed block is far larger than a
+             # read-ahead window and a partial read stops inside it
+             ("iso-zisofs-dense", "iso9660", [], "iso9660:zisofs=direct", half_random_spec([("y1", 103177), ("y2", 70000), ("y3", 103177)])),
              ("cpio-odc", "cpio", [], "", plain), ("cpio-newc-bz2", "newc", ["bzip2"], "", plain),
              ("xar", "xar", [], "", plain), ("warc", "warc", [], "", few), ("ar", "arbsd", [], "", pattern_spec([("a.o", 101), ("bb.o", 0), ("c.o", 3000)])),
              ("iso", "iso9660", [], "", plain), ("mtree", "mtree", [], "", plain), ("tar-zstd", "ustar", ["zstd"], "", few),
@@ -539,6 +554,12 @@ class E2E:
         if n <= 6:
             for mask in range(2 ** n):
                 V.append([([0, 4096] if (k % 2) else [1]) if (mask >> k) & 1 else [4] for k in range(n)])
+        # one entry read partially (or skipped explicitly), every other entry read completely: what a partial read
+        # leaves behind in a decoder must not reach the entries that follow
+        if n <= 8:
+            for i in range(n):
+                for act in ([2, 10], [2, 5000], [3]):
+                    V.append([act if k == i else [0, 4096] for k in range(n)])
         extra = 8 if n <= 6 else 16
         V.append([[3]]); V.append([[4]]); V.append([[2, 1]]); V.append([[2, 10]])
         for _ in range(extra if not self.quick else max(3, extra // 2)):
